@@ -13,6 +13,8 @@ fn main() {
         "C01" => run_check(c01::C01, &args),
         "C02" => run_check(c02::C02, &args),
         "C03" => run_check(c03::C03, &args),
+        "C04" => run_check(c04::C04, &args),
+        "C05" => run_check(c05::C05, &args),
         "C14" => run_check(c14::C14, &args),
         "C16" => run_check(c16::C16, &args),
         other => {
